@@ -124,6 +124,8 @@ class Execution:
     def resolve(self, object_type, parent, field_def, args, path):
         self.trace.append(("invoke", path, dict(args)))
         oc = self.world.get(path)
+        if oc is None and "__fn__" in self.world:
+            oc = self.world["__fn__"](parent, field_def.name, path)     # behaviour given as a function of the parent value
         if oc is None:
             if isinstance(parent, dict) and field_def.name in parent:
                 return parent[field_def.name]
